@@ -297,6 +297,14 @@ def _record_site(it, S, sites, is_enum):
         dd = S.dom(("discr", v)) if not (isinstance(v, tuple) and v[0] == "agg") else None
         if isinstance(v, tuple) and v[0] == "agg" and isinstance(v[1], str):
             d = it.ctx.variant_discr(v[1], v[2])
+            # Ok(Some(x)) / Ok(None): one post per inner variant as well, registered on the inner discriminant
+            if len(v[3]) == 1:
+                inner = v[3][0]
+                while isinstance(inner, tuple) and inner[0] == "upd":
+                    inner = inner[1]
+                if isinstance(inner, tuple) and inner[0] == "agg" and isinstance(inner[1], str) and inner[1] in ENUM_ADTS and inner[2] is not None:
+                    path = (("dc", v[2], VARIANT_NAMES.get((v[1], v[2]), str(v[2]))), ("f", 0, FIELD_NAMES.get((v[1], v[2], 0), "0")))
+                    sites.setdefault(("nest", d, path, it.ctx.variant_discr(inner[1], inner[2])), []).append(S.copy())
         elif dd is not None and dd.lo == dd.hi:
             d = dd.lo
         else:
@@ -338,6 +346,9 @@ def apply_posts(it, S_pre, S, t, args, R, posts, callee_body):
                     S.set_dom(f[1], f[2])
         elif isinstance(d, tuple) and d[0] == "bool":
             key = (R, d[1])
+            it.cond[key] = it.cond.get(key, []) + facts
+        elif isinstance(d, tuple) and d[0] == "nest":
+            key = (("discr", project(R, d[2])), d[3])
             it.cond[key] = it.cond.get(key, []) + facts
         else:
             key = (("discr", R), d)
